@@ -78,6 +78,7 @@ theorem removeAt_eff {m : MMap} {cs : Cells} {h : HPos} {i : Nat} {to} {r} (hr :
   cases hk : m.kderef cs h <;> simp [hk] at hr
   rename_i kc
   cases h2 : chk (decide (i < kc.2)) <;> simp [h2] at hr
+  cases h3 : m.mutKey cs h <;> simp [h3] at hr
   subst hr
   exact dropValue_eff m cs _ i
 
@@ -120,6 +121,20 @@ theorem sum_eq_zero_all {l : List Nat} (h : l.sum = 0) : ∀ x ∈ l, x = 0 := b
     · omega
     · exact ih (by omega) x hx
 
+theorem swapFilter_id (p : Nat → Bool) : ∀ (fuel i : Nat) (l : List Nat), (∀ x ∈ l, p x = false) → swapFilter p fuel i l = l := by
+  intro fuel
+  induction fuel with
+  | zero => intro i l _; rfl
+  | succ n ih =>
+    intro i l h
+    unfold swapFilter
+    cases hx : l[i]? with
+    | none => rfl
+    | some x =>
+      have hm : x ∈ l := List.mem_of_getElem? hx
+      simp only [h x hm, Bool.false_eq_true, ↓reduceIte]
+      exact ih (i + 1) l h
+
 theorem removeIf_eff (m : MMap) (cs : Cells) (mo r : Nat) : MEff cs m (m.removeIf cs mo r).1 (m.removeIf cs mo r).2.1 := by
   refine ⟨rfl, rfl, 0, (m.kv.map (fun p => (p.2.filter (fun v => v % mo == r)).length)).sum, ?_, ?_, ?_⟩
   · rw [bumpN_zero]; rfl
@@ -136,17 +151,17 @@ theorem removeIf_eff (m : MMap) (cs : Cells) (mo r : Nat) : MEff cs m (m.removeI
     apply h
     rw [Nat.zero_add] at hz
     have hall := sum_eq_zero_all hz
-    have : ∀ p ∈ m.kv, (p.1, p.2.filter (fun v => !(v % mo == r))) = p := by
+    have : ∀ p ∈ m.kv, (p.1, swapFilter (fun v => v % mo == r) (2 * p.2.length) 0 p.2) = p := by
       intro p hp
       have h0 := hall _ (List.mem_map_of_mem (f := fun p : Nat × List Nat => (p.2.filter (fun v => v % mo == r)).length) hp)
       have hnil := List.length_eq_zero_iff.mp h0
-      have : p.2.filter (fun v => !(v % mo == r)) = p.2 := by
-        apply List.filter_eq_self.mpr
+      have : swapFilter (fun v => v % mo == r) (2 * p.2.length) 0 p.2 = p.2 := by
+        apply swapFilter_id
         intro v hv
         have := List.filter_eq_nil_iff.mp hnil v hv
         simpa using this
       rw [this]
-    calc m.kv.map (fun p => (p.1, p.2.filter (fun v => !(v % mo == r)))) = m.kv.map id :=
+    calc m.kv.map (fun p => (p.1, swapFilter (fun v => v % mo == r) (2 * p.2.length) 0 p.2)) = m.kv.map id :=
           List.map_congr_left (fun p hp => this p hp)
       _ = m.kv := List.map_id _
 
@@ -290,7 +305,7 @@ theorem key_fresh_accepted (m : MMap) (cs : Cells) (k : Nat) (mv : Bool) (vs : L
   · intro to; simp [removeValues, hm]
   · intro nx; simp [removeKey, hm, chk, hcap]
   · intro k'; simp [resetKey, h, snap_checkAt, chk]
-  · intro i to hi; simp [removeAt, hkd, chk, hi]
+  · intro i to hi; simp [removeAt, hkd, chk, hi, hm]
   · intro i to hi
     unfold makeIt
     simp only [h, Option.isNone_some, Bool.false_and, Bool.false_eq_true, ↓reduceIte, snap_checkAt, chk, Option.bind_eq_bind, Option.bind_some]
